@@ -45,7 +45,7 @@ class C28:
         lev = st.sampled_from(list(LEVELS) + ['y'])
         script = st.one_of(st.lists(lev, min_size=1, max_size=20), st.lists(lev, min_size=50, max_size=200)).map(''.join)
         return st.fixed_dictionaries({'levels': st.one_of(st.just('diwef'), st.sets(st.sampled_from(list(LEVELS))).map(lambda s: ''.join(sorted(s)))),
-                                      'scripts': st.lists(script, min_size=1, max_size=8), 'stop': st.one_of(st.just(-1), st.just(-2), st.just(-2), st.integers(0, 10 ** 6)),
+                                      'scripts': st.lists(script, min_size=1, max_size=8), 'stop': st.one_of(st.just(-1), st.just(-2), st.just(-2), st.just(-3), st.integers(0, 10 ** 6)),
                                       # injected schedule, one case in three: 1-2 submits (producer, position) are held inside the queue push - slot claimed, not yet
                                       # published - until stop() has been entered
                                       'holds': st.one_of(st.just([]), st.just([]), st.lists(st.tuples(st.integers(0, 7), st.sampled_from([0, 0, 0, 1, 2, 5, 50, 199])), min_size=1, max_size=2))})
@@ -65,63 +65,76 @@ class C28:
             return {}
         # stop: -1 = after the producer threads have been joined; -2 = the instant the last send has returned (the main thread spins on the counter of returned
         # sends: stop() follows the last submit within a microsecond, while the logger thread still holds a backlog); k = after the k-th returned send
-        stop_after = -1 if case['stop'] == -1 else total if case['stop'] == -2 else case['stop'] % (total + 1)
+        # -3 = a short-lived logger: no producer threads, the creating thread submits everything right behind the constructor and calls stop() at once
+        stop_after = -1 if case['stop'] == -1 else -3 if case['stop'] == -3 else total if case['stop'] == -2 else case['stop'] % (total + 1)
+        if stop_after == -3:
+            scripts = [s.replace('h', '') or 'i' for s in scripts][:3]
+            scripts = [s[:6] for s in scripts]
+            held = 0
+            total = sum(1 for s in scripts for c in s if c != 'y')
         if held:
             # stop() cannot wait for a send that is itself held until stop() is entered: at most the sends that come before the first hold of their producer are awaited
             free = sum(sum(1 for c in s.split('h')[0] if c != 'y') for s in scripts)
             stop_after = min(stop_after, free)
-        a = ex.call('logrun %s %d %d %s' % (case['levels'] or '-', len(scripts), stop_after, ';'.join(scripts)), timeout=170)
-        text = bytes.fromhex(a['file']).decode('latin-1')
-        lines = text.split('\n')
-        if lines and lines[-1] == '':
-            lines.pop()
-        desc = 'levels [%s], %d producers with %s lines, stop %s%s' % (case['levels'], len(scripts), [len(s) for s in scripts], 'after the producers' if stop_after < 0 else 'after %d returned sends' % stop_after,
-                                                                  '' if not held else ', held submits (h) in scripts %s' % [s if len(s) < 40 else s[:40] + '...' for s in scripts if 'h' in s])
+        def judge(a):
+            text = bytes.fromhex(a['file']).decode('latin-1')
+            lines = text.split('\n')
+            if lines and lines[-1] == '':
+                lines.pop()
+            desc = 'levels [%s], %d producers with %s lines, stop %s%s' % (case['levels'], len(scripts), [len(s) for s in scripts], 'right behind the constructor, submitted by the creating thread' if stop_after == -3 else 'after the producers' if stop_after < 0 else 'after %d returned sends' % stop_after,
+                                                                      '' if not held else ', held submits (h) in scripts %s' % [s if len(s) < 40 else s[:40] + '...' for s in scripts if 'h' in s])
 
-        def fail(msg):
-            raise Violation('C28: %s\n case: %s\n file (%d lines): %s' % (msg, desc, len(lines), lines[:12]))
-        seen = {}
-        order = {}
-        for n, ln in enumerate(lines):
-            m = LINE_RE.match(ln)
-            if not m:
-                fail('malformed line %d: %r' % (n + 1, ln))
-            if int(m.group(1)) != n + 1:
-                fail('logger sequence number %s on line %d (numbers must be consecutive from 1)' % (m.group(1), n + 1))
-            key = (int(m.group(5)), int(m.group(6)))
-            seen[key] = seen.get(key, 0) + 1
-            order.setdefault(key[0], []).append(key[1])
-            p, k = key
-            if p >= len(scripts) or k >= len(scripts[p]) or scripts[p][k] in 'yh':
-                fail('line %r was never submitted' % ln)
-            if LEVEL_NAMES[scripts[p][k]] != m.group(3):
-                fail('line %r carries level %r, it was submitted at %r' % (ln, m.group(3), LEVEL_NAMES[scripts[p][k]]))
-        enabled_total = required = 0
-        for p, s in enumerate(scripts):
-            for k, c in enumerate(s):
-                if c in 'yh':
-                    continue
-                r, before = a['ret'][p][k]
-                cnt = seen.get((p, k), 0)
-                if c not in case['levels']:
-                    if cnt:
-                        fail('line P%dL%d at disabled level %s was written' % (p, k, LEVEL_NAMES[c]))
-                    continue
-                enabled_total += 1
-                if cnt > 1:
-                    fail('line P%dL%d written %d times' % (p, k, cnt))
-                if before:
-                    required += 1
-                    if cnt != 1:
-                        fail('line P%dL%d was submitted (send returned) before stop() was entered and is not in the file after stop() returned' % (p, k))
-                    if not r:
-                        fail('send() returned false for line P%dL%d, which was accepted and written' % (p, k))
-            if order.get(p, []) != sorted(order.get(p, [])):
-                fail('lines of producer %d are out of submission order: %s' % (p, order[p][:30]))
-        return {'nontrivial': len(scripts) >= 2 and enabled_total >= 100, 'classes': ['producers:%d' % len(scripts), 'stop:' + ('after' if stop_after < 0 else 'during'),
-                                                                                       'levels:%d' % len(case['levels'])] + (['held_submit_behind_stop'] if held else []),
-                'key': case, 'sample': {'levels': case['levels'], 'producers': len(scripts), 'lines_per_producer': [len(s) for s in scripts], 'stop_after': stop_after,
-                                        'enabled_lines': enabled_total, 'required_lines': required, 'file_head': lines[:5]}}
+            def fail(msg):
+                raise Violation('C28: %s\n case: %s\n file (%d lines): %s' % (msg, desc, len(lines), lines[:12]))
+            seen = {}
+            order = {}
+            for n, ln in enumerate(lines):
+                m = LINE_RE.match(ln)
+                if not m:
+                    fail('malformed line %d: %r' % (n + 1, ln))
+                if int(m.group(1)) != n + 1:
+                    fail('logger sequence number %s on line %d (numbers must be consecutive from 1)' % (m.group(1), n + 1))
+                key = (int(m.group(5)), int(m.group(6)))
+                seen[key] = seen.get(key, 0) + 1
+                order.setdefault(key[0], []).append(key[1])
+                p, k = key
+                if p >= len(scripts) or k >= len(scripts[p]) or scripts[p][k] in 'yh':
+                    fail('line %r was never submitted' % ln)
+                if LEVEL_NAMES[scripts[p][k]] != m.group(3):
+                    fail('line %r carries level %r, it was submitted at %r' % (ln, m.group(3), LEVEL_NAMES[scripts[p][k]]))
+            enabled_total = required = 0
+            for p, s in enumerate(scripts):
+                for k, c in enumerate(s):
+                    if c in 'yh':
+                        continue
+                    r, before = a['ret'][p][k]
+                    cnt = seen.get((p, k), 0)
+                    if c not in case['levels']:
+                        if cnt:
+                            fail('line P%dL%d at disabled level %s was written' % (p, k, LEVEL_NAMES[c]))
+                        continue
+                    enabled_total += 1
+                    if cnt > 1:
+                        fail('line P%dL%d written %d times' % (p, k, cnt))
+                    if before:
+                        required += 1
+                        if cnt != 1:
+                            fail('line P%dL%d was submitted (send returned) before stop() was entered and is not in the file after stop() returned' % (p, k))
+                        if not r:
+                            fail('send() returned false for line P%dL%d, which was accepted and written' % (p, k))
+                if order.get(p, []) != sorted(order.get(p, [])):
+                    fail('lines of producer %d are out of submission order: %s' % (p, order[p][:30]))
+            return {'nontrivial': len(scripts) >= 2 and enabled_total >= 100, 'classes': ['producers:%d' % len(scripts), 'stop:' + ('short_lived_logger' if stop_after == -3 else 'after' if stop_after < 0 else 'during'),
+                                                                                           'levels:%d' % len(case['levels'])] + (['held_submit_behind_stop'] if held else []),
+                    'key': case, 'sample': {'levels': case['levels'], 'producers': len(scripts), 'lines_per_producer': [len(s) for s in scripts], 'stop_after': stop_after,
+                                            'enabled_lines': enabled_total, 'required_lines': required, 'file_head': lines[:5]}}
+
+        info = None
+        # a short-lived logger (stop == -3) is created, used and stopped 25 times: whether its own thread has run before stop() is a matter of microseconds
+        for _round in range(25 if stop_after == -3 else 1):
+            a = ex.call('logrun %s %d %d %s' % (case['levels'] or '-', len(scripts), stop_after, ';'.join(scripts)), timeout=170)
+            info = judge(a)
+        return info
 
 
 class C29:
@@ -279,7 +292,11 @@ class C30:
     def strategy(self):
         ctl = st.fixed_dictionaries({'kind': st.just('ctl'), 'np': st.integers(2, 3), 'nc': st.integers(1, 2),
                                      'pushes': st.lists(st.integers(1, 6), min_size=3, max_size=3), 'pops': st.lists(st.integers(1, 8), min_size=2, max_size=2),
-                                     'sched': st.one_of(st.lists(st.integers(0, 4), max_size=400), st.lists(st.integers(0, 4), min_size=50, max_size=400))})
+                                     # the schedule: one thread choice per hook point, or (third form) runs - a thread keeps the baton for 1-60 points, which is how one
+                                     # thread gets parked between two of its steps while another completes several whole operations
+                                     'sched': st.one_of(st.lists(st.integers(0, 4), max_size=400), st.lists(st.integers(0, 4), min_size=50, max_size=400),
+                                                        st.lists(st.tuples(st.integers(0, 4), st.sampled_from([1, 1, 2, 3, 5, 10, 20, 40, 60])), min_size=1, max_size=40).map(
+                                                            lambda runs: [t for t, n in runs for _ in range(n)][:400]))})
         stress = st.fixed_dictionaries({'kind': st.just('stress'), 'np': st.integers(1, 8), 'nc': st.integers(1, 8), 'n': st.sampled_from([2000, 5000, 20000, 50000])})
         return st.integers(0, 9).flatmap(lambda i: stress if i == 0 else ctl)      # one case in ten is a free-running run (one_of would drop the repeated objects)
 
@@ -340,6 +357,17 @@ class C30:
                 elif tag == self.C_RELEASED:
                     attempt_of[c] += 1
                     popping.discard(c)
+        # every pop attempt that came back empty must have taken the empty-queue decision (the read of the head ticket's producer sequence): a pop that gives up
+        # anywhere else reports "empty" without having looked
+        n_empty_events = [0] * nc
+        for th, tag, val in ev:
+            if th >= np_ and tag == self.C_EMPTY:
+                n_empty_events[th - np_] += 1
+        for c in range(nc):
+            failed = sum(1 for cc, ok, e in a['pops'] if cc == c and not ok)
+            if failed != n_empty_events[c]:
+                fail('consumer %d: %d pop attempts reported empty, %d of them decided so on the head ticket\'s producer sequence - a pop gave up elsewhere while elements may be queued' % (
+                    c, failed, n_empty_events[c]))
         # successful pops return the element of their own ticket
         per_c = {}
         for c, ok, e in a['pops']:
@@ -374,6 +402,7 @@ class C30:
 # ================================================================================================
 class C31:
     id = 'C31'
+    no_shrink = True        # a failing timeline is slow to run (the harness waits for a timer thread that does not come round): it is reported as found
     level = 'exploration'
     build = [('asan', 'fx')]
     workers = 8
@@ -401,7 +430,9 @@ class C31:
         step = st.one_of(st.tuples(st.just('s'), st.integers(0, 11)), st.tuples(st.just('s'), st.integers(0, 11)),
                          st.tuples(st.just('a'), st.one_of(st.integers(0, 250), st.sampled_from(['due', 'due-1', 'due+1']))), st.tuples(st.just('a'), st.sampled_from(['due', 'due-1', 'due+1'])),
                          st.tuples(st.just('c'),), st.tuples(st.just('G'),))
-        return st.fixed_dictionaries({'events': st.lists(evt, min_size=12, max_size=12), 'steps': st.lists(step, min_size=1, max_size=30)})
+        # origin: where inside a clock second the timeline starts (ms); near the end of a second the due times of pending events straddle the second boundary
+        return st.fixed_dictionaries({'events': st.lists(evt, min_size=12, max_size=12), 'steps': st.lists(step, min_size=1, max_size=30),
+                                      'origin': st.sampled_from([0, 0, 500, 700, 800, 850, 900, 950, 990, 999])})
 
     def run(self, case, ex):
         now = 1                     # ms since the origin; the harness probe has consumed the first millisecond
@@ -463,9 +494,19 @@ class C31:
                 nclear += 1
         if not toks:
             return {}
-        a = ex.call('timer %s' % ';'.join(toks), timeout=280)
+        if case.get('origin'):
+            toks = ['o%d' % case['origin']] + toks
+        try:
+            a = ex.call('timer %s' % ';'.join(toks), timeout=280)
+        except RuntimeError as e:
+            if 'harness error' not in str(e):
+                raise
+            # the executor gave up waiting for the timer: an event that is due (and held by the harness for a concurrent clear) did not fire, or the timer thread
+            # stopped coming round its loop - 20 s of real time for something that takes microseconds
+            raise Violation('C31: %s\n steps %s' % (str(e)[:400], toks))
         if a.get('error'):
-            raise RuntimeError(a['error'])
+            # the timer thread stopped coming round its loop (20 s of real time for a loop that takes microseconds): due events cannot fire any more
+            raise Violation('C31: %s\n steps %s' % (a['error'], toks))
         got = [tuple(x) for x in a['fired']]
         desc = 'steps %s' % toks
 
